@@ -243,6 +243,17 @@ static T& unwrapped(const std::reference_wrapper<T>& x)
     return x.get();
 }
 
+template <typename C>
+static C made_from(const C& c)
+{
+    return c;
+}
+template <typename C>
+static const C made_const_from(const C& c)
+{
+    return c;
+}
+
 // generic driver for one container object that is kept in `c`
 template <typename C>
 static std::string run_generic(const std::string& ad, const std::string& cat, bool write, C& c,
@@ -363,6 +374,20 @@ static std::string run_generic(const std::string& ad, const std::string& cat, bo
                 av = al.verdict(cc, false);
             return fin(o, orig) + av;
         }
+        if (cat == "prv")
+        {
+            // a genuine temporary (the result of a call): it has to stay alive for the whole loop
+            for (auto p : nitro::lang::enumerate(made_from(c)))
+                o.add(p.index(), val_of(p.value()), true);
+            return fin(o, orig);
+        }
+        if (cat == "cprv")
+        {
+            // ... also when the function returns a const object
+            for (auto p : nitro::lang::enumerate(made_const_from(c)))
+                o.add(p.index(), val_of(p.value()), true);
+            return fin(o, orig);
+        }
         C tmp = c;
         for (auto p : nitro::lang::enumerate(std::move(tmp)))
             o.add(p.index(), val_of(p.value()), true);
@@ -399,6 +424,12 @@ static std::string run_generic(const std::string& ad, const std::string& cat, bo
                 al.add(x);
             }
             return fin(o, orig) + al.verdict(cc, true);
+        }
+        if (cat == "prv")
+        {
+            for (auto& x : nitro::lang::reverse(made_from(c)))
+                o.add(0, val_of(x), false);
+            return fin(o, orig);
         }
         C tmp = c;
         for (auto& x : nitro::lang::reverse(std::move(tmp)))
